@@ -157,27 +157,67 @@ func (s *Session) btreeIterate(fr *Frame, fn *ssa.Function, args []Val, st *Stat
 	savedReal, savedRoots, savedBlocks := s.scanReal, s.scanRoots, s.scanBlocks
 	s.scanReal, s.scanRoots, s.scanBlocks = map[string]bool{}, map[string][]T{}, map[*ssa.BasicBlock]bool{}
 	all := false
-	// stores through captured variables are precise (that very cell); everything else is scanned by type
+	// stores through captured variables are precise (that very cell); calls through captured function values are
+	// followed; everything else is scanned by type
 	var cells []*Loc
-	for _, b := range clo.Clo.Fn.Blocks {
-		var rest []ssa.Instruction
-		for _, in := range b.Instrs {
-			if sto, ok := in.(*ssa.Store); ok {
-				if fv, isFV := sto.Addr.(*ssa.FreeVar); isFV {
-					for i, f := range clo.Clo.Fn.FreeVars {
-						if f == fv && i < len(clo.Clo.Bindings) {
-							cells = append(cells, s.toLoc(clo.Clo.Bindings[i]))
+	var collect func(c *Closure, depth int)
+	collect = func(c *Closure, depth int) {
+		if depth > 4 {
+			all = true
+			return
+		}
+		for _, b := range c.Fn.Blocks {
+			var rest []ssa.Instruction
+			for _, in := range b.Instrs {
+				if sto, ok := in.(*ssa.Store); ok {
+					if fv, isFV := sto.Addr.(*ssa.FreeVar); isFV {
+						for i, f := range c.Fn.FreeVars {
+							if f == fv && i < len(c.Bindings) {
+								cells = append(cells, s.toLoc(c.Bindings[i]))
+							}
+						}
+						continue
+					}
+				}
+				if call, ok := in.(*ssa.Call); ok && !call.Call.IsInvoke() {
+					// f captured by reference: the callee is *fv
+					if ld, isLd := call.Call.Value.(*ssa.UnOp); isLd {
+						if fv, isFV := ld.X.(*ssa.FreeVar); isFV {
+							followed := false
+							for i, f := range c.Fn.FreeVars {
+								if f == fv && i < len(c.Bindings) {
+									if cv, ok3 := s.fnCells[s.toLoc(c.Bindings[i]).Ref.S]; ok3 && cv.Clo != nil {
+										collect(cv.Clo, depth+1)
+										followed = true
+									}
+								}
+							}
+							if followed {
+								continue
+							}
 						}
 					}
-					continue
+					if fv, isFV := call.Call.Value.(*ssa.FreeVar); isFV {
+						followed := false
+						for i, f := range c.Fn.FreeVars {
+							if f == fv && i < len(c.Bindings) && c.Bindings[i].Clo != nil {
+								collect(c.Bindings[i].Clo, depth+1)
+								followed = true
+							}
+						}
+						if followed {
+							continue
+						}
+					}
 				}
+				rest = append(rest, in)
 			}
-			rest = append(rest, in)
-		}
-		if s.scanInstrs(nil, rest, mods, map[*ssa.Function]bool{clo.Clo.Fn: true}, 1) {
-			all = true
+			if s.scanInstrs(nil, rest, mods, map[*ssa.Function]bool{c.Fn: true}, 1) {
+				all = true
+			}
 		}
 	}
+	collect(clo.Clo, 0)
 	real := s.scanReal
 	s.scanReal, s.scanRoots, s.scanBlocks = savedReal, savedRoots, savedBlocks
 	if all {
